@@ -5,7 +5,7 @@ key shapes x value shapes x YAML fence x terminators x bodies) and update histor
 history is replayed through the C-string, DString and engine families (the latter with ONE engine object across all calls) and the command
 line (-m, -e); MetadataTrace requires every recorded answer to be the specification's.
 """
-import json, os, random, subprocess, html.parser
+import json, os, random, re, subprocess, html.parser
 from vlib import *  # noqa
 import docs
 
@@ -77,7 +77,7 @@ def to_trace(h, evs, fam):
         if ev.get("e") != "meta": continue
         op = ev["op"]
         if op == "has":
-            body = text[ev["end"]:].lstrip(b"\n") if ev["end"] <= len(text) else b"<end beyond text>"
+            body = re.sub(rb"^([ \t]*\n)+", b"", text[ev["end"]:]) if ev["end"] <= len(text) else b"<end beyond text>"          # (the line(s) that separate block and body)
             tr.append(dict(e="has", has=ev["has"], end=ev["end"], body=dec(body)))
         elif op == "keys":
             tr.append(dict(e="keys", res=dec((ev.get("res") or "").encode("latin-1")) if ev.get("res") is not None else "NULL"))
